@@ -107,7 +107,13 @@ func GoroutinesBySite() map[string]int {
 	_ = pprof.Lookup("goroutine").WriteTo(&buf, 1)
 	out := map[string]int{}
 	// debug=1 format: "N @ 0x... 0x...\n#\t0x.. func+0x.. file:line\n...\n\n"
-	for _, blk := range strings.Split(buf.String(), "\n\n") {
+	text := buf.String()
+	if strings.HasPrefix(text, "goroutine profile:") { // header line is directly followed by the first (largest) block
+		if i := strings.IndexByte(text, '\n'); i >= 0 {
+			text = text[i+1:]
+		}
+	}
+	for _, blk := range strings.Split(text, "\n\n") {
 		lines := strings.Split(strings.TrimSpace(blk), "\n")
 		if len(lines) < 2 {
 			continue
